@@ -273,7 +273,7 @@ Qed.
    at child index ci, with the child's current value *)
 Lemma run_edge_callback_delivers p x ci s ex e ed v :
   experts s !! x = Some ex -> ex_fire_all ex = false -> zget (ex_children ex) ci = Some e ->
-  edges s !! e = Some ed -> ed_cb ed = true -> node_value (S (ed_child ed)) s (ed_child ed) = Some v ->
+  edges s !! e = Some ed -> ed_cb ed = CbLog -> node_value (S (ed_child ed)) s (ed_child ed) = Some v ->
   crash_at s <> Some (S (inv_count s)) ->
   run_edge_callback p x ci s =
     (Ok tt, s <| inv_count := S (inv_count s) |> <| events := EvEdgeCb p e v :: events s |>
@@ -297,7 +297,7 @@ Lemma edge_on_change_no_value p e s ed :
   edges s !! e = Some ed -> node_value (S (ed_child ed)) s (ed_child ed) = None -> edge_on_change p e s = (Ok tt, s).
 Proof.
   intros He Hv. unfold edge_on_change, get_edge, bindM, get, ret. cbv beta iota. rewrite He. cbv beta iota.
-  destruct (ed_cb ed); [|done]. unfold value_of, bindM, get, ret. cbv beta iota. by rewrite Hv.
+  destruct (ed_cb ed); [done| |]; unfold value_of, bindM, get, ret; cbv beta iota; by rewrite Hv.
 Qed.
 
 (* make_stale: sets the flag; a second call before the recompute changes nothing *)
